@@ -42,7 +42,8 @@ struct CmpMod4Desc
 struct PolSingle { typedef eventpp::SingleThreading Threading; };
 struct PolSpin { typedef eventpp::GeneralThreading<eventpp::SpinLock> Threading; };
 struct PolOrdered { template <typename Item> using QueueList = eventpp::OrderedQueueList<Item>; };
-struct PolOrderedMod { typedef eventpp::SingleThreading Threading; template <typename Item> using QueueList = eventpp::OrderedQueueList<Item, CmpMod4Desc>; };
+// the QueueList policy here is a template with a defaulted second parameter (the library instantiates it with the item type only)
+struct PolOrderedMod { typedef eventpp::SingleThreading Threading; template <typename Item, typename Compare = CmpMod4Desc> using QueueList = eventpp::OrderedQueueList<Item, Compare>; };
 struct PolExclude { typedef eventpp::ArgumentPassingExcludeEvent ArgumentPassingMode; template <typename K, typename V> using Map = std::map<K, V>; typedef TCallback Callback; };
 struct PolGetEvent { static int getEvent(const EvObj & e) { return e.type; } typedef eventpp::SingleThreading Threading; };
 
@@ -185,6 +186,21 @@ struct QC8 : CfgCommon
 	static void dispatch(Q & q, int k, int eid, int) { TPayload p(eid); q.dispatch(KS(k), p); }
 	static void queued(const Q::QueuedEvent & e, ArgPack & p) { if(e.event != std::get<0>(e.arguments)) p.push(-99); p.push(fpOf(std::get<0>(e.arguments))); p.push(fpOf(std::get<1>(e.arguments))); }
 	static std::string key(int k) { return KS(k); }
+};
+// the payload type asks for 16-byte alignment (queue slots are raw storage: the library must place them suitably)
+struct QC9 : CfgCommon
+{
+	typedef eventpp::EventQueue<int, void(int, const TPayloadA16 &)> Q;
+	static const char * name() { return "EventQueue<int,void(int,const TPayloadA16&)> default policies, argument type with alignof 16"; }
+	static void enqueue(Q & q, int k, int eid, int, uint32_t form) {
+		if(form % 3 == 0) { TPayloadA16 p(eid); int kk = KI(k); q.enqueue(kk, p); }
+		else if(form % 3 == 1) q.enqueue(KI(k), TPayloadA16(eid));
+		else { const TPayloadA16 p(eid); const int kk = KI(k); q.enqueue(kk, p); }
+	}
+	static void expect(ArgPack & p, int k, int eid, int) { p.push(KI(k)); p.push(eid); }
+	static void dispatch(Q & q, int k, int eid, int) { TPayloadA16 p(eid); q.dispatch(KI(k), p); }
+	static void queued(const Q::QueuedEvent & e, ArgPack & p) { if(e.event != std::get<0>(e.arguments)) p.push(-99); p.push(std::get<0>(e.arguments)); p.push(fpOf(std::get<1>(e.arguments))); }
+	static int key(int k) { return KI(k); }
 };
 // what queued() must produce for an event
 template <typename Cfg> inline void expectQueued(ArgPack & p, int k, int eid, int val) { Cfg::expect(p, k, eid, val); }
@@ -921,25 +937,25 @@ template <bool Enabled, typename Cfg>
 static typename std::enable_if<! Enabled>::type runCfgIf(const QMode &, Rng &, uint64_t, int) {}
 static void skipCase() { --ctx().casesRun; }
 
-enum { NCFG = 9 };
+enum { NCFG = 10 };
 #ifndef VF_CFG_MASK
-#define VF_CFG_MASK 0x37f
+#define VF_CFG_MASK 0x77f
 #endif
 // C20: the same program under a family that differs only in policies.  hasWait = 0 for every member so that the
 // generated operations are the same (waitFor does not compile for the single-threaded and SpinLock policies).
 #if (VF_CFG_MASK >> 7) & 1
 template <typename Policies>
-struct FamQ : QC0
+struct FamQ : QC9
 {
 	enum { hasWait = 0 };
-	typedef eventpp::EventQueue<int, void(int, const TPayload &), Policies> Q;
-	static const char * name() { return "EventQueue<int,void(int,const TPayload&)> policy family member"; }
+	typedef eventpp::EventQueue<int, void(int, const TPayloadA16 &), Policies> Q;
+	static const char * name() { return "EventQueue<int,void(int,const TPayloadA16&)> policy family member (argument type with alignof 16)"; }
 	static void enqueue(Q & q, int k, int eid, int, uint32_t form) {
-		if(form % 3 == 0) { TPayload p(eid); int kk = KI(k); q.enqueue(kk, p); }
-		else if(form % 3 == 1) q.enqueue(KI(k), TPayload(eid));
-		else { const TPayload p(eid); const int kk = KI(k); q.enqueue(kk, p); }
+		if(form % 3 == 0) { TPayloadA16 p(eid); int kk = KI(k); q.enqueue(kk, p); }
+		else if(form % 3 == 1) q.enqueue(KI(k), TPayloadA16(eid));
+		else { const TPayloadA16 p(eid); const int kk = KI(k); q.enqueue(kk, p); }
 	}
-	static void dispatch(Q & q, int k, int eid, int) { TPayload p(eid); q.dispatch(KI(k), p); }
+	static void dispatch(Q & q, int k, int eid, int) { TPayloadA16 p(eid); q.dispatch(KI(k), p); }
 	static void queued(const typename Q::QueuedEvent & e, ArgPack & p) { if(e.event != std::get<0>(e.arguments)) p.push(-99); p.push(std::get<0>(e.arguments)); p.push(fpOf(std::get<1>(e.arguments))); }
 };
 template <typename K, typename V> using FPlainMap = std::map<K, V>;
@@ -978,6 +994,7 @@ static void runCase(uint64_t caseNo, Rng & rng)
 	VF_CFG(0) VF_CFG(1) VF_CFG(2) VF_CFG(3) VF_CFG(4) VF_CFG(5) VF_CFG(6)
 	case 7: if((VF_CFG_MASK >> 8) & 1) { runCfgIf<((VF_CFG_MASK >> 8) & 1) != 0, QC7>(mode, rng, caseNo, 7); } else { skipCase(); } break; // bit 7 is the C20 family
 	case 8: if((VF_CFG_MASK >> 9) & 1) { runCfgIf<((VF_CFG_MASK >> 9) & 1) != 0, QC8>(mode, rng, caseNo, 8); } else { skipCase(); } break;
+	case 9: if((VF_CFG_MASK >> 10) & 1) { runCfgIf<((VF_CFG_MASK >> 10) & 1) != 0, QC9>(mode, rng, caseNo, 9); } else { skipCase(); } break;
 	default: skipCase(); break;
 	}
 }
